@@ -711,18 +711,73 @@ func ruleLoadFilter(c *Ctx, r *R) {
 			}
 			return true
 		})
+		// the line handed to IsGoBuild is trimmed
 		trimmed := false
-		for _, p := range c.pathsOf("checkConstraint") {
-			for _, e := range p.Eff {
-				if e.Kind == "call" && e.Value != nil && strings.HasSuffix(e.Value.Name, "constraint.IsGoBuild") && len(e.Value.Args) == 1 {
-					if strings.Contains(e.Value.Args[0].String(), "strings.TrimSpace(s)") {
-						trimmed = true
+		ast.Inspect(cf.Body, func(n ast.Node) bool {
+			call, ok := n.(*ast.CallExpr)
+			if !ok || !strings.HasSuffix(c.CalleeName(call), "constraint.IsGoBuild") || len(call.Args) != 1 {
+				return true
+			}
+			if strings.Contains(nosp(c.Src(call.Args[0])), "strings.TrimSpace(") {
+				trimmed = true
+			}
+			if id, ok := unparen(call.Args[0]).(*ast.Ident); ok {
+				o := c.Obj(id)
+				ast.Inspect(cf.Body, func(m ast.Node) bool {
+					if as, ok := m.(*ast.AssignStmt); ok {
+						for k, l := range as.Lhs {
+							if li, ok := unparen(l).(*ast.Ident); ok && c.Obj(li) == o && k < len(as.Rhs) && strings.Contains(nosp(c.Src(as.Rhs[k])), "strings.TrimSpace(") {
+								trimmed = true
+							}
+						}
+					}
+					return true
+				})
+			}
+			return true
+		})
+		r.check(trimmed, "constraint line", c.Pos(cf), "the line tested for //go:build is trimmed", "checkConstraint no longer trims the line before looking for //go:build: an indented constraint, or one after blank lines, is ignored and the file is loaded")
+		// the constraint is looked for in the whole file header: a loop over the lines that
+		// skips blank lines and other comments (Go allows a licence comment before it)
+		header := false
+		ast.Inspect(cf.Body, func(n ast.Node) bool {
+			rs, ok := n.(*ast.RangeStmt)
+			if !ok {
+				return true
+			}
+			hasBuild, skipsBlank, skipsComment := false, false, false
+			ast.Inspect(rs.Body, func(m ast.Node) bool {
+				switch x := m.(type) {
+				case *ast.CallExpr:
+					nm := c.CalleeName(x)
+					if strings.HasSuffix(nm, "constraint.IsGoBuild") {
+						hasBuild = true
+					}
+					if nm == "strings.HasPrefix" && len(x.Args) == 2 {
+						if v, ok := c.ConstString(x.Args[1]); ok && v == "//" {
+							skipsComment = true
+						}
+					}
+				case *ast.BinaryExpr:
+					if v, ok := c.ConstString(x.Y); ok && v == "" && x.Op == token.EQL {
+						skipsBlank = true
 					}
 				}
+				return true
+			})
+			if hasBuild && skipsBlank && skipsComment {
+				header = true
 			}
-		}
-		r.check(trimmed, "constraint line", c.Pos(cf), "the constraint is looked for on the first non-blank line", "checkConstraint no longer skips leading blank lines/indentation before looking for //go:build: a constraint that does not start at byte 0 is ignored and the file is loaded")
+			return true
+		})
+		r.check(header, "constraint header", c.Pos(cf), "blank lines and comments before the constraint are skipped", "checkConstraint only looks at the first line of the file: a //go:build line that follows a copyright/licence comment (allowed by Go) is ignored, so a file excluded for goat is loaded — its init runs, or it raises a false `multiple packages` conflict")
 		r.check(tagOK, "tag predicate", c.Pos(cf), `only the tag "goat" is set`, `the build-constraint evaluator's tag predicate is not exactly t == "goat"`)
+		ast.Inspect(cf.Body, func(n ast.Node) bool {
+			if rs, ok := n.(*ast.ReturnStmt); ok && len(rs.Results) == 2 && isIdent(rs.Results[0], "true") && isIdent(rs.Results[1], "nil") {
+				noLineOK = true
+			}
+			return true
+		})
 		r.check(noLineOK, "no constraint", c.Pos(cf), "a file without //go:build is included", "a file without a //go:build line is no longer included")
 	} else {
 		r.undecided("checkConstraint", "-", "not found")
